@@ -6,6 +6,7 @@ import (
 	"go/token"
 	"go/types"
 	"math/big"
+	"os"
 	"runtime/debug"
 	"sort"
 	"strings"
@@ -248,6 +249,14 @@ func (ex *Exec) ensureInit(p *ssa.Package) {
 		return
 	}
 	initFn := p.Func("init")
+	if os.Getenv("GOSMT_DEBUG") != "" {
+		fmt.Fprintf(os.Stderr, "ensureInit %s fn=%v blocks=%d\n", p.Pkg.Path(), initFn != nil, func() int {
+			if initFn == nil {
+				return -1
+			}
+			return len(initFn.Blocks)
+		}())
+	}
 	if initFn == nil || initFn.Blocks == nil {
 		ex.initDone[p] = 2
 		return
@@ -269,7 +278,7 @@ func (ex *Exec) ensureInit(p *ssa.Package) {
 			ex.depth = save
 			ex.cur.frames = ex.cur.frames[:savedFrames]
 		}()
-		ex.callFunction(initFn, nil, nil)
+		ex.execFunction(initFn, nil, nil)
 	}()
 	ex.initDone[p] = 2
 }
@@ -876,6 +885,9 @@ func (ex *Exec) execBlocks(fr *frame, b *ssa.BasicBlock) {
 				ex.end("steps", "step limit")
 			}
 			fr.curInstr = in
+			if debugTrace {
+				fmt.Fprintf(os.Stderr, "  [%s b%d] %s\n", fr.fn.Name(), b.Index, in)
+			}
 			switch in := in.(type) {
 			case *ssa.If:
 				c := ex.get(fr, in.Cond).(*Term)
@@ -918,12 +930,62 @@ func (ex *Exec) execBlocks(fr *frame, b *ssa.BasicBlock) {
 				v := ex.get(fr, in.X)
 				panic(&goPanic{val: v, stack: ex.stackString()})
 			default:
-				ex.execInstr(fr, in)
+				if fr.fn.Synthetic == "package initializer" {
+					ex.execInitInstr(fr, in)
+				} else {
+					ex.execInstr(fr, in)
+				}
 			}
 		}
 		fr.prev = b
 		b = next
 	}
+}
+
+// execInitInstr runs one instruction of a package initializer; an initializer
+// expression the engine cannot evaluate leaves that one global at its zero
+// value (recorded as a stub) instead of abandoning the rest of the package.
+func (ex *Exec) execInitInstr(fr *frame, in ssa.Instruction) {
+	th := ex.cur
+	base := len(th.frames)
+	d := ex.depth
+	defer func() {
+		r := recover()
+		if r == nil {
+			return
+		}
+		var msg string
+		switch x := r.(type) {
+		case *pathEnd:
+			if x.kind != "unsupported" {
+				panic(r)
+			}
+			msg = x.msg
+		case *enginePanic:
+			msg = x.msg
+		case *goPanic:
+			msg = "panic: " + ex.panicMessage(x)
+		default:
+			panic(r)
+		}
+		th.frames = th.frames[:base]
+		ex.depth = d
+		ex.noteStub("init:" + fr.fn.Pkg.Pkg.Path() + " (skipped: " + firstLine(msg) + ")")
+		if v, ok := in.(ssa.Value); ok {
+			func() {
+				defer func() { recover() }()
+				ex.set(fr, v, ex.zeroValue(v.Type()))
+			}()
+		}
+	}()
+	ex.execInstr(fr, in)
+}
+
+func firstLine(s string) string {
+	if i := strings.IndexByte(s, '\n'); i >= 0 {
+		return s[:i]
+	}
+	return s
 }
 
 func (ex *Exec) execInstr(fr *frame, in ssa.Instruction) {
@@ -1171,6 +1233,8 @@ func (ex *Exec) snapshot(v Value) Value {
 	}
 	return v
 }
+
+var debugTrace = os.Getenv("GOSMT_DEBUG") == "2"
 
 type enginePanic struct {
 	msg      string
